@@ -136,14 +136,24 @@ static void check_parse_of(int f, const char *text, const refset *expect, const 
 {
   /* exact-size heap copy */
   size_t l = strlen(text); char *copy = malloc(l + 1); memcpy(copy, text, l + 1);
-  hwloc_bitmap_t r = hwloc_bitmap_alloc();
-  hwloc_bitmap_set(r, 5); /* pre-existing content must not survive */
-  int rc = FMT[f].sc(r, copy);
-  refset got; model_of(r, &got);
-  char key[96];
-  if (rc != 0) { snprintf(key, sizeof(key), "c04.%s.rejects-own-output@%s", FMT[f].name, what); mc_violation(key, "%s: sscanf(\"%s\") = %d", mc_case_text(), text, rc); }
-  else if (!rs_isequal(&got, expect)) { snprintf(key, sizeof(key), "c04.%s.roundtrip@%s", FMT[f].name, what); mc_violation(key, "%s: \"%s\" parsed as %s, expected %s", mc_case_text(), text, rs_str(&got), rs_str(expect)); }
-  hwloc_bitmap_free(r); free(copy);
+  /* pre-existing content of the destination must not survive, whatever its width: a low bit, a wider finite set (more words
+   * than most texts need), an infinite tail, the full set (seeded change C04-taskset-sscanf-stale-ulongs: the destination
+   * was enlarged but never shrunk) */
+  for (int dv = 0; dv < 4; dv++) {
+    hwloc_bitmap_t r = hwloc_bitmap_alloc();
+    if (dv == 0) hwloc_bitmap_set(r, 5);
+    else if (dv == 1) { hwloc_bitmap_set(r, 5); hwloc_bitmap_set_range(r, 70, 140); hwloc_bitmap_set(r, 450); }
+    else if (dv == 2) { hwloc_bitmap_set(r, 1); hwloc_bitmap_set_range(r, 330, -1); }
+    else hwloc_bitmap_fill(r);
+    int rc = FMT[f].sc(r, copy);
+    refset got; model_of(r, &got);
+    char key[96];
+    if (rc != 0) { snprintf(key, sizeof(key), "c04.%s.rejects-own-output@%s", FMT[f].name, what); mc_violation(key, "%s: sscanf(\"%s\") = %d", mc_case_text(), text, rc); }
+    else if (!rs_isequal(&got, expect)) { snprintf(key, sizeof(key), "c04.%s.roundtrip@%s", FMT[f].name, what); mc_violation(key, "%s: \"%s\" parsed into a destination holding %s gives %s, expected %s", mc_case_text(), text, dv == 0 ? "{5}" : dv == 1 ? "{5,70-140,450}" : dv == 2 ? "{1,330-}" : "the full set", rs_str(&got), rs_str(expect)); }
+    hwloc_bitmap_free(r);
+    mc_count("parse_destinations", 1);
+  }
+  free(copy);
 }
 
 static void print_battery(hwloc_const_bitmap_t b, const refset *m)
